@@ -32,6 +32,7 @@ type Ctx struct {
 	Prog    *ssa.Program
 	SSAPkgs []*ssa.Package
 
+	repoGraph *RepoGraph
 	chaGraph *callgraph.Graph
 	vtaGraph *callgraph.Graph
 	allFuncs map[*ssa.Function]bool
